@@ -207,6 +207,11 @@ def check(ctx):
         B.must_return("G5", padfi, f"valid: known rule and numeric fill value, {wname}", lambda widths=widths: run_pad(P, {AX: "extend"}, 2.5, widths))
     B.must_raise("G5", ax_init, "Axis with an unknown boundary word", lambda: run_axis_init(P, ["center", "left"], boundary="bogus"))
     B.must_raise("G6", ax_init, "Axis with a non-numeric fill value", lambda: run_axis_init(P, ["center", "left"], fill_value="abc"))
+    # the constructor tells "nothing given" (None) from a given value that happens to be falsy, like pad() does
+    B.must_raise("G5", ax_init, "Axis with the empty string as boundary word", lambda: run_axis_init(P, ["center", "left"], boundary=""))
+    B.must_raise("G6", ax_init, "Axis with an empty string as fill value", lambda: run_axis_init(P, ["center", "left"], fill_value=""))
+    B.must_raise("G6", ax_init, "Axis with an empty list as fill value", lambda: run_axis_init(P, ["center", "left"], fill_value=[]))
+    B.must_return("G6", ax_init, "valid: Axis with fill value 0 and rule 'fill'", lambda: run_axis_init(P, ["center", "left"], boundary="fill", fill_value=0))
     B.must_raise("G5", disp, "unknown boundary word through diff outer->center (zero-width stencil)", lambda: full_dispatch(P, "diff", "outer", "center", kwargs={"boundary": "bogus"}))
     B.must_raise("G5", disp, "unknown boundary word through diff center->left", lambda: full_dispatch(P, "diff", "center", "left", kwargs={"boundary": "bogus"}))
     # ... also when it stands for an axis the operation does not act along (pad() validates the rule of every grid axis)
